@@ -149,6 +149,7 @@ def run_property(prop_id: str, tier: str, seed: int, procs: int | None = None) -
     per_harness: dict[str, dict] = {}
     slow: list = []
     early_stop = False
+    error_jobs: list = []
     twins_ok = 0
     ctxm = mp.get_context("fork")
     with ctxm.Pool(min(procs, max(1, len(jobs)))) as pool:
@@ -160,6 +161,7 @@ def run_property(prop_id: str, tier: str, seed: int, procs: int | None = None) -
             slow.append((round(out["wall_s"], 1), out["label"][:160]))
             if out["error"]:
                 errors.append(f"{out['label']}: {out['error']}")
+                error_jobs.append(out["job"])
                 continue
             r = ExploreResult.from_dict(out["result"])
             for k in ("paths", "queries", "obligations", "discharged", "truncated"):
@@ -199,6 +201,7 @@ def run_property(prop_id: str, tier: str, seed: int, procs: int | None = None) -
     known = load_known()
     known_keys = {(k["property"], k["key"]): k for k in known.get("known", [])}
     violations, known_hits, spurious = [], {}, []
+    n_hist = 0
     rep_dir = VERIF / "replays"
     for i, cex in enumerate(total.cex):
         job = cex.get("notes", {}).get("job") or _job_of(cex, jobs)
@@ -213,6 +216,10 @@ def run_property(prop_id: str, tier: str, seed: int, procs: int | None = None) -
             # in-process state (caches filled by earlier replays in this interpreter) can mask a history-dependent defect:
             # give the counterexample one more chance in a fresh interpreter before calling it spurious
             msg = _replay_in_fresh_process(prop_id, job, cex)
+        hist = None
+        if msg is None and n_hist < 2:
+            n_hist += 1
+            msg, hist = _history_replay(prop_id, job, cex)
         if msg is None:
             spurious.append(f"counterexample does not reproduce on the real code: {cex['label']} {cex['obligation']} {cex['inputs']}")
             continue
@@ -223,8 +230,24 @@ def run_property(prop_id: str, tier: str, seed: int, procs: int | None = None) -
         rep_dir.mkdir(exist_ok=True)
         rp = rep_dir / f"{prop_id}-{i}.json"
         rp.write_text(json.dumps(dict(property=prop_id, job=job, inputs=cex["inputs"], obligation=cex["obligation"],
-                                      message=msg, notes=cex.get("notes", {})), indent=1, default=_js))
+                                      message=msg, notes=cex.get("notes", {}), **(dict(history=hist) if hist else {})), indent=1, default=_js))
         violations.append((rp, msg))
+    # an exploration that broke (e.g. on a stale symbolic value served from a cache of the code under test) may be the
+    # symptom of hidden state: run the inputs recorded up to that point one after the other on the unpatched code
+    if not violations and not known_hits:
+        for job in [j for j in error_jobs if "max_seconds" not in str(j.get("_skip_hist", ""))][:2]:
+            msg, hist = _history_replay(prop_id, job, None)
+            if msg is None:
+                continue
+            key = msg.split("|")[0].strip()
+            if (prop_id, key) in known_keys:
+                known_hits[key] = known_keys[(prop_id, key)]["what"]
+                continue
+            rep_dir.mkdir(exist_ok=True)
+            rp = rep_dir / f"{prop_id}-h{len(violations)}.json"
+            rp.write_text(json.dumps(dict(property=prop_id, job=job, inputs=hist[-1]["inputs"], obligation="(exploration broke)", message=msg,
+                                          notes=hist[-1].get("notes", {}), history=hist), indent=1, default=_js))
+            violations.append((rp, msg))
     wall = time.time() - t0
     meta = getattr(mod, "META", {})
     status = "ok"
@@ -300,6 +323,85 @@ def _replay_in_fresh_process(prop_id, job, cex):
     return None
 
 
+def record_history(prop_id: str, job_file: str, out_file: str) -> int:
+    """child 1 of a history replay: re-explore one harness instance symbolically and write one model per accepted path in
+    exploration order, ending with the counterexample (if the exploration reaches one again)"""
+    mod = _load(prop_id)
+    if hasattr(mod, "warmup"):
+        mod.warmup()
+    job = json.loads(Path(job_file).read_text())
+    h = mod.HARNESSES[job["h"]]
+    pcfg = h.get("patch", {})
+    rec: list = []
+    cex = None
+    err = None
+    try:
+        with H.patched(**(pcfg() if callable(pcfg) else pcfg)):
+            res = explore(h["run"](job), label="history", max_paths=job.get("max_paths", 400_000), max_seconds=900.0, stop_on_cex=True, validate=None, record=rec)
+            cex = res.cex[0] if res.cex else None
+    except Exception as e:  # the exploration itself broke (e.g. a stale symbolic value served from a cache): keep what was recorded
+        err = f"{type(e).__name__}: {e}"
+    Path(out_file).write_text(json.dumps(dict(history=rec, cex=cex, error=err), default=_js))
+    return 0
+
+
+def replay_history(prop_id: str, job: dict, entries: list):
+    """the recorded inputs one after the other on the unpatched code, in ONE process; first violation message or None"""
+    mod = _load(prop_id)
+    h = mod.HARNESSES[job["h"]]
+    for k, e in enumerate(entries):
+        try:
+            msg = h["replay"](job, e["inputs"], e.get("notes", {}))
+        except Exception as ex:
+            if k == len(entries) - 1:
+                raise
+            continue
+        if msg is not None:
+            key, _, rest = msg.partition("|")
+            return f"{key.strip()} | [after the {k} earlier inputs of the same exploration were run on the real code in the same process] {rest.strip()}", k
+    return None, None
+
+
+def _history_replay(prop_id, job, cex):
+    """a counterexample (or a broken exploration) that does not reproduce in isolation may depend on state that earlier
+    executions left behind in the process.  The exploration order is itself a call history: re-record it (child 1, symbolic),
+    then run the recorded inputs one after the other on the unpatched code in a fresh interpreter (child 2)."""
+    import subprocess
+    import tempfile
+
+    d = Path(tempfile.mkdtemp(prefix="hist-", dir=str(VERIF)))
+    try:
+        (d / "job.json").write_text(json.dumps(job, default=_js))
+        env = dict(os.environ, VERIF_IN_VENV="1")
+        subprocess.run([sys.executable, "-W", "ignore", str(VERIF / "check.py"), prop_id, "--record-history", str(d / "job.json"), str(d / "rec.json")],
+                       env=env, capture_output=True, text=True, timeout=1200, cwd=str(VERIF))
+        if not (d / "rec.json").exists():
+            return None, None
+        rec = json.loads((d / "rec.json").read_text())
+        entries = list(rec["history"])
+        last = rec.get("cex") or cex
+        if last is not None:
+            entries.append(dict(inputs=last["inputs"], notes=last.get("notes", {})))
+        if not entries:
+            return None, None
+        (d / "hist.json").write_text(json.dumps(dict(property=prop_id, job=job, history=entries), default=_js))
+        p = subprocess.run([sys.executable, "-W", "ignore", str(VERIF / "check.py"), prop_id, "--replay", str(d / "hist.json")],
+                           env=env, capture_output=True, text=True, timeout=1200, cwd=str(VERIF))
+        lines = p.stdout.splitlines()
+        for i, l in enumerate(lines):
+            if l.startswith("VIOLATION") and i + 1 < len(lines):
+                msg = lines[i + 1].strip()
+                k = int(msg.split("after the ")[1].split(" ")[0]) if "after the " in msg else len(entries) - 1
+                return msg, entries[: k + 1]
+    except Exception:
+        return None, None
+    finally:
+        import shutil
+
+        shutil.rmtree(d, ignore_errors=True)
+    return None, None
+
+
 def _confirms(mod, prop_id, cexs, jobs) -> bool:
     known = {(k["property"], k["key"]) for k in load_known().get("known", [])}
     for cex in cexs:
@@ -343,7 +445,10 @@ def replay_file(path: str) -> int:
     if hasattr(mod, "warmup"):
         mod.warmup()
     h = mod.HARNESSES[d["job"]["h"]]
-    msg = h["replay"](d["job"], d["inputs"], d.get("notes", {}))
+    if d.get("history"):
+        msg, _k = replay_history(d["property"], d["job"], d["history"])
+    else:
+        msg = h["replay"](d["job"], d["inputs"], d.get("notes", {}))
     if msg is None:
         print("replay: no violation on the current tree")
         return 0
